@@ -50,6 +50,7 @@ type Solver struct {
 	mu       sync.Mutex
 	seed     int
 	seq      int
+	skip     func(o *Obligation) bool
 }
 
 func NewSolver(cacheDir string, timeout, par int) *Solver {
@@ -204,4 +205,64 @@ func truncate(s string, n int) string {
 		return s[:n] + "…"
 	}
 	return s
+}
+
+
+func (s *Solver) cachePath(query string) string {
+	h := sha256.Sum256([]byte(query))
+	return filepath.Join(s.cacheDir, hex.EncodeToString(h[:]))
+}
+
+func (s *Solver) cached(query string) (Verdict, bool) {
+	if s.noCache {
+		return Verdict{}, false
+	}
+	data, err := os.ReadFile(s.cachePath(query))
+	if err != nil {
+		return Verdict{}, false
+	}
+	parts := strings.SplitN(string(data), "\n", 3)
+	if len(parts) >= 2 && (parts[0] == "unsat" || parts[0] == "sat") {
+		v := Verdict{Status: parts[0], Solver: parts[1], Cached: true}
+		if len(parts) == 3 {
+			v.Output = parts[2]
+		}
+		return v, true
+	}
+	return Verdict{}, false
+}
+
+func (s *Solver) store(query, status, solver string) {
+	os.WriteFile(s.cachePath(query), []byte(status+"\n"+solver+"\n"), 0o644)
+}
+
+// runIncremental runs one z3 session over a script with n check-sat commands
+// and returns the answers in order (missing answers mean the session died).
+func (s *Solver) runIncremental(script string, perCheckSec, n int) []string {
+	s.mu.Lock()
+	s.seq++
+	seq := s.seq
+	s.mu.Unlock()
+	file := filepath.Join(s.tmpDir, fmt.Sprintf("inc.%d.smt2", seq))
+	os.WriteFile(file, []byte(script), 0o644)
+	defer os.Remove(file)
+	s.sem <- struct{}{}
+	defer func() { <-s.sem }()
+	total := perCheckSec*n/4 + 30
+	ctx, cancel := context.WithTimeout(context.Background(), time.Duration(total)*time.Second)
+	defer cancel()
+	cmd := exec.CommandContext(ctx, "z3-new", fmt.Sprintf("-t:%d", perCheckSec*1000), file)
+	var out bytes.Buffer
+	cmd.Stdout = &out
+	cmd.Stderr = &out
+	cmd.Run()
+	var ans []string
+	for _, l := range strings.Split(out.String(), "\n") {
+		l = strings.TrimSpace(l)
+		switch l {
+		case "sat", "unsat", "unknown", "timeout":
+			ans = append(ans, l)
+		}
+	}
+	return ans
 }
